@@ -16,6 +16,18 @@
 (*                frequencies in simple ratios to the input (2, 8/5, 16/5,    *)
 (*                16/25, 4/5), margin 1e-2, phase 0: every output used, the   *)
 (*                order of the outputs matters.                               *)
+(* MODE "edge":   exhaustive enumeration of ALL requests of 1..MaxOuts outputs *)
+(*                whose frequencies lie at the EDGES of what the device can   *)
+(*                produce (class 9): the grid points around                   *)
+(*                VCO_min / largest output divider  (lowest reachable output) *)
+(*                VCO_max / smallest output divider (highest reachable one)   *)
+(*                and the end points of the legal output range, all computed  *)
+(*                from the declared ranges of the device table; margins from  *)
+(*                1 % up to 10 % (the grid is 125 kHz: a wide margin is what  *)
+(*                puts a setting at the very end of a divider range inside    *)
+(*                and the next value outside the range closer to the target). *)
+(*                The same class is also drawn in MODE "sample" (mixed with   *)
+(*                several outputs, phases, vco margins).                      *)
 EXTENDS Integers, Sequences, FiniteSets, TLC, Json, IOUtils
 
 DEV == JsonDeserialize(IOEnv.DEVICES)
@@ -42,26 +54,57 @@ FullFins == {200, 800}                                 \* 25 MHz, 100 MHz
 FullF(f) == { (f * ab[1]) \div ab[2] : ab \in { x \in {<<2, 1>>, <<8, 5>>, <<16, 5>>, <<16, 25>>, <<4, 5>>} : (f * x[1]) % x[2] = 0 } }
 
 Margins  == {<<0, 1>>, <<1, 10000>>, <<1, 1000>>, <<1, 100>>}
+EdgeMargins == {<<1, 100>>, <<1, 50>>, <<1, 20>>, <<1, 10>>}
+
+(* ---- the edges of the reachable output band, from the declared ranges ----- *)
+SetMax(S) == CHOOSE x \in S : \A y \in S : y <= x
+SetMin(S) == CHOOSE x \in S : \A y \in S : y >= x
+(* python range <<lo, hi_exclusive, step>>: its largest member *)
+RgMax(rg) == rg[1] + ((rg[2] - 1 - rg[1]) \div rg[3]) * rg[3]
+(* <<smallest, largest>> output divider of the primitive, and the scale of the divider values *)
+DivEnds(d) ==
+  CASE d.kind = "nmd"   -> << SetMin({ d.d[i][j][1] : <<i, j>> \in { x \in (1..Len(d.d)) \X (1..8) : x[2] <= Len(d.d[x[1]]) } }),
+                              SetMax({ RgMax(d.d[i][j]) : <<i, j>> \in { x \in (1..Len(d.d)) \X (1..8) : x[2] <= Len(d.d[x[1]]) } }),
+                              d.sc >>
+    [] d.kind = "ecp5"  -> << d.co[1], d.co[2], 1 >>
+    [] d.kind = "gw5a"  -> << d.odiv[1], d.odiv[2], 1 >>
+    [] d.kind = "gw1n"  -> << SetMin({ d.odiv[j] : j \in 1..Len(d.odiv) }), SetMax({ d.odiv[j] : j \in 1..Len(d.odiv) }), 1 >>
+    [] d.kind = "trion" -> << d.c[1], d.c[2], 1 >>
+    [] OTHER -> << 1, 1, 1 >>
+(* the oscillator range the output dividers divide *)
+OscOf(d) == IF d.kind = "trion" THEN d.pll ELSE d.vco
+EdgeF(d) ==
+  LET e  == DivEnds(d)
+      lo == (OscOf(d)[1] * e[3]) \div e[2]
+      hi == IF OscOf(d)[2] < 0 THEN 0 ELSE (OscOf(d)[2] * e[3]) \div e[1]
+  IN ((lo - 1)..(lo + 2)) \cup (IF hi > 0 THEN (hi - 1)..(hi + 1) ELSE {}) \cup {d.fout[1], d.fout[2]}
+EdgeFins == {200, 400, 800}                            \* 25, 50, 100 MHz
 AllPh    == {0, 45, 90, 135, 180, 270}
 
 (* request classes: << frequency alphabet, phases, margins >> *)
 (* 1,7: what designs ask for; 2-4: arbitrary mixes (mostly infeasible with many outputs: exercises the refusal  *)
 (* clause); 5,6: outputs harmonically related to the input (feasible with tight or zero margins)              *)
+(* 8: MODE "full"; 9: the edges of the reachable output band (MODE "edge", and drawn in MODE "sample" when the    *)
+(* device has such frequencies inside its legal output range)                                                  *)
 NCls == 7
-FreqsOf(c, f) == CASE c \in {1, 2, 7} -> NiceF [] c \in {3, 4} -> NiceF \cup OddF [] c = 8 -> FullF(f) [] OTHER -> HarmF(f)
-PhOf(c)  == CASE c \in {1, 6, 8} -> {0} [] c \in {2, 4} -> AllPh [] c = 7 -> {0, 90, 180} [] OTHER -> {0, 90}
+FreqsOf(d, c, f) == CASE c \in {1, 2, 7} -> NiceF [] c \in {3, 4} -> NiceF \cup OddF [] c = 8 -> FullF(f)
+                      [] c = 9 -> EdgeF(d) [] OTHER -> HarmF(f)
+PhOf(c)  == CASE c \in {1, 6, 8, 9} -> {0} [] c \in {2, 4} -> AllPh [] c = 7 -> {0, 90, 180} [] OTHER -> {0, 90}
 MgOf(c)  == CASE c \in {1, 6, 7, 8} -> {<<1, 100>>} [] c \in {2, 4} -> Margins [] c = 3 -> {<<1, 100>>, <<1, 1000>>}
-                   [] OTHER -> {<<0, 1>>, <<1, 10000>>}
+                   [] c = 9 -> EdgeMargins [] OTHER -> {<<0, 1>>, <<1, 10000>>}
 
-Fouts(d, c, f) == { x \in FreqsOf(c, f) : x > 0 /\ x <= 6400 /\ Legal(x, d.fout) }
+Fouts(d, c, f) == { x \in FreqsOf(d, c, f) : x > 0 /\ x <= 6400 /\ Legal(x, d.fout) }
+SampleCls(d, f) == (1..NCls) \cup (IF Fouts(d, 9, f) # {} THEN {9} ELSE {})
 Phs(d, c)      == IF d.hasphase = 1 THEN PhOf(c) ELSE {0}
 Mgs(d, c)      == IF d.m0only = 1 THEN {<<0, 1>>} ELSE MgOf(c)
 VMs(d)         == IF d.hasvm = 1 /\ MODE = "sample" THEN {<<0, 1>>, <<1, 20>>} ELSE {<<0, 1>>}
 
 Init == /\ dv \in 1..Len(DEV)
-        /\ fin \in IF MODE = "full" THEN { x \in FullFins : Legal(x, DEV[dv].fin) } ELSE Fins(DEV[dv])
+        /\ fin \in IF MODE = "full" THEN { x \in FullFins : Legal(x, DEV[dv].fin) }
+                   ELSE IF MODE = "edge" THEN { x \in EdgeFins : Legal(x, DEV[dv].fin) } ELSE Fins(DEV[dv])
         /\ vm \in VMs(DEV[dv])
-        /\ cls \in IF MODE = "single" THEN {4} ELSE IF MODE = "full" THEN {8} ELSE 1..NCls
+        /\ cls \in IF MODE = "single" THEN {4} ELSE IF MODE = "full" THEN {8} ELSE IF MODE = "edge" THEN {9}
+                   ELSE SampleCls(DEV[dv], fin)
         /\ k \in IF MODE = "single" THEN {1}
                  ELSE IF MODE = "full" THEN {IF DEV[dv].nmax < MaxOuts THEN DEV[dv].nmax ELSE MaxOuts}
                  ELSE 1..(IF DEV[dv].nmax < MaxOuts THEN DEV[dv].nmax ELSE MaxOuts)
